@@ -397,6 +397,8 @@ def run_cmd(case):
         else:
             os.chdir(os.path.join(work, "o"))
         so, se = sys.stdout, sys.stderr
+        import logging
+        logging.disable(logging.NOTSET)        # the command's own logging is part of what it does (workers mute it)
         fstrace.start([sbx])
         try:
             from torrentfile.cli import execute
@@ -408,6 +410,7 @@ def run_cmd(case):
             rec["status"] = "exc:" + type(ex).__name__
         finally:
             log = fstrace.stop()
+            logging.disable(logging.CRITICAL)
             sys.stdout, sys.stderr = so, se
             os.chdir(cwd)
         after = snapshot(work)
